@@ -43,6 +43,13 @@ CLASS_OK = {
     "IntTensor": "int32", "Int64Tensor": "int64", "UInt8Tensor": "uint8", "BoolTensor": "bool", "Float16Tensor": "float16",
     "SignedIntTensor": "int16", "UnsignedIntTensor": "uint32", "DoubleTensor": "float64",
 }  # fmt: skip
+# every shared-category dtype the class documents (the generator picks one at random)
+CLASS_ALL = {
+    "TensorTypeBase": ["float32", "int64", "bool", "uint8", "float16"], "FloatTensor": ["float16", "float32", "float64"],
+    "Float32Tensor": ["float32"], "Float64Tensor": ["float64"], "DoubleTensor": ["float64"], "Float16Tensor": ["float16"],
+    "IntTensor": ["int8", "int16", "int32", "int64", "uint8", "uint16", "uint32", "uint64"], "Int64Tensor": ["int64"], "UInt8Tensor": ["uint8"],
+    "BoolTensor": ["bool"], "SignedIntTensor": ["int8", "int16", "int32", "int64"], "UnsignedIntTensor": ["uint8", "uint16", "uint32", "uint64"],
+}  # fmt: skip
 CLASS_BAD = {
     "FloatTensor": "int32", "Float32Tensor": "float64", "Float64Tensor": "float32", "IntTensor": "float32",
     "Int64Tensor": "int32", "UInt8Tensor": "int8", "BoolTensor": "uint8", "Float16Tensor": "float32",
@@ -237,7 +244,7 @@ def gen_ctx(rng, max_tensors=4, tuple_p=0.2, ret_p=0.3, provider_p=0.3, libs=(0,
         if shape is None:
             shape = tuple(rng.choice(SIZES) for _ in dims)
         lib = rng.choice(libs)
-        return Slot(cls_idx(cname), " ".join(dims) if dims else None, rng.random() < 0.15, ("T", dt(lib, CLASS_OK[cname]), shape)), cname
+        return Slot(cls_idx(cname), " ".join(dims) if dims else None, rng.random() < 0.15, ("T", dt(lib, rng.choice(CLASS_ALL[cname])), shape)), cname
 
     all_slots = []
     for i in range(nt):
